@@ -398,6 +398,8 @@ package store
 // C12 stored before announced, C17 monotone head)
 //@ func (*Store).flushLoop$1(headers)
 //@   props C04, C06, C12, C17
+//@   ghost announced error := result0 of call (*heightSub).Notify #0
+//@   ensures [C12] every-batch-is-announced: called(announced) -- whether or not the head moves: SetHeight only releases waiters up to the new contiguous head, headers above a gap are released by Notify alone
 //@   requires storeINV(s) && !isBatch(s.ds) && s.pending != nil && forall i int :: 0 <= i && i < len(headers) ==> onChain(headers[i])
 //@   modifies $now, ghost:hcHas, ghost:hcVal, ghost:icHas, ghost:icVal, ghost:btHas, ghost:btPuts, ghost:btVal, ghost:dsHas, ghost:dsVal, ghost:dsWrites, AP_set, AP_val_Hdr, AT_u64, MH_Int_Hdr_has, MH_Int_Hdr_val, MH_Str_Int_has, MH_Str_Int_val, sub.count, MH_Int_Int_has, MH_Int_Int_val, ghost:arrived
 //@   ensures [C04] inv: storeINV(s)
@@ -561,6 +563,8 @@ package store
 //@   ghost hderr error := result1 of call Head #0
 //@   ghost tlerr error := result1 of call Tail #0
 //@   ghost wiped error := result0 of call wipe #0
+//@   ghost rawErr error := result2 of call deleteRangeRaw #0
+//@   ensures [C14,C08] failure-is-returned: called(rawErr) && rawErr != nil ==> result != nil -- wherever in the range the deletion stopped, the first height included
 //@   modifies $now, ghost:hcHas, ghost:hcVal, ghost:icHas, ghost:icVal, ghost:btHas, ghost:btPuts, ghost:btVal, ghost:dsHas, ghost:dsVal, ghost:dsWrites, ghost:dsDeletes, ghost:hCalls, ghost:hFailed, AP_set, AP_val_Hdr, AT_u64, MH_Int_Hdr_has, MH_Int_Hdr_val, MH_Str_Int_has, MH_Str_Int_val, sub.count, MH_Int_Int_has, MH_Int_Int_val, ghost:arrived, EH_Int, F_store_result_err, F_store_result_height, F_store_result_missing, EH_Err, F_keytransform_Datastore_KeyTransform, F_keytransform_Datastore_child, F_sync_Once__, F_sync_Once_done, F_sync_Once_m
 //@   ensures [C08] inv: storeINV(s)
 //@   ensures [C08] only-ends: result == nil ==> called(hd) && called(tl) && from < to && ((from == tl.Height() && to <= hd.Height() + 1) || (to == hd.Height() + 1 && from >= tl.Height()))
@@ -633,6 +637,7 @@ package store
 // representation invariant to the flush loop it spawns (C06: restart re-establishes the invariant)
 //@ func (*Store).Start(s, ctx)
 //@   props C06
+//@   before WithCancel [C06] writer-outlives-the-start-context: arg0 == ctxBackground -- the flush loop lives until Stop: its context must not be derived from the context handed to Start, which callers release as soon as Start returns (head and tail stop advancing once it is done)
 //@   requires hdrCacheOK() && dsHdrOK() && dsIdxOK() && idxCacheOK() && batchOK(s.pending) && s.pending != nil
 //@   requires fresh-state: (forall h uint64 @ has(s.pending.headers, h) :: !has(s.pending.headers, h)) && !apSet(s.contiguousHead) && !apSet(s.tailHeader)
 //@   requires s.ds != nil && !isBatch(s.ds) && s.heightSub != nil && s.heightIndex != nil
